@@ -555,7 +555,7 @@ def run(ctx):
         ctx.count("flags_scraped_" + sc, len(flags[sc]))
     if len(flags["version"]) < 30 or len(flags["flow"]) < 15:
         raise core.Inconclusive("flag scraping found too few flags: %r" % {k: len(v) for k, v in flags.items()})
-    per = 150 if quick else 8000
+    per = 150 if quick else 16000
     slow = []
     for r in core.pmap(work_fuzz, [(ctx.bins, "%s/%d/z%d" % (ctx.prop, ctx.seed, i), per, flags) for i in range(32)]):
         ctx.merge_counts(r["st"])
@@ -658,7 +658,7 @@ def run(ctx):
     ctx.evaluations += tn
     for sig, why, case in tbad:
         ctx.refute(sig, why, case)
-    nrep = 5 if quick else 48
+    nrep = 5 if quick else 96
     calls = set()
     for r in core.pmap(work_faults, [(ctx.bins, "%s/%d" % (ctx.prop, ctx.seed), i, ctx.tmp, part) for i in range(nrep) for part in range(4)]):
         ctx.merge_counts(r["st"])
